@@ -286,6 +286,7 @@ reset_format(kdump_ctx_t *ctx)
 		if (shared->ops->cleanup)
 			shared->ops->cleanup(shared);
 		shared->ops = NULL;
+		++shared->fmt_gen;
 	}
 	if (shared->cache) {
 		/* The statistics attributes point into the cache. */
